@@ -63,8 +63,8 @@ Section Rx.
     - destruct (sw_check (window s) (expand (largest s) tpn n)) eqn:Ew; try discriminate.
       injection H as <- <- <-. apply ideal_aead in Eo as [Hin ->].
       repeat split; auto. exists tpn, n, hdr. auto.
-    - destruct (sw_check (window s) (expand (largest s) tpn n)); try discriminate.
-      destruct (integrity_limit <=? failures s + 1); discriminate.
+    - destruct (integrity_limit <=? failures s + 1); [discriminate|].
+      destruct (sw_check (window s) (expand (largest s) tpn n)); discriminate.
   Qed.
 
   Lemma rx_not_processed : forall s d s' code, rx s d = (s', (code, None)) ->
@@ -76,8 +76,8 @@ Section Rx.
     destruct (aead_open (expand (largest s) tpn n) hdr ct) as [p0|] eqn:Eo.
     - destruct (sw_check (window s) (expand (largest s) tpn n)); try discriminate;
         injection H as <- _; auto.
-    - destruct (sw_check (window s) (expand (largest s) tpn n)); [|injection H as <- _; auto..].
-      destruct (integrity_limit <=? failures s + 1); injection H as <- _; auto.
+    - destruct (integrity_limit <=? failures s + 1); [injection H as <- _; auto|].
+      destruct (sw_check (window s) (expand (largest s) tpn n)); injection H as <- _; auto.
   Qed.
 
   Lemma rx_result_shape : forall s d, (exists pn p, snd (rx s d) = (0%Z, Some (pn, p))) \/ (exists code, snd (rx s d) = (code, None)).
@@ -87,8 +87,8 @@ Section Rx.
     destruct (unprot d) as [[[[tpn n] hdr] ct]|]; [|right; eexists; reflexivity].
     destruct (aead_open _ hdr ct) as [p0|].
     - destruct (sw_check _ _); [left; do 2 eexists; reflexivity| |]; right; eexists; reflexivity.
-    - destruct (sw_check _ _); [|right; eexists; reflexivity..].
-      destruct (integrity_limit <=? failures s + 1); right; eexists; reflexivity.
+    - destruct (integrity_limit <=? failures s + 1); [right; eexists; reflexivity|].
+      destruct (sw_check _ _); right; eexists; reflexivity.
   Qed.
 
   (* ---- forged_no_effect: a datagram that is not authentic changes nothing the application or the
@@ -109,8 +109,8 @@ Section Rx.
       destruct (unprot d) as [[[[tpn n] hdr] ct]|]; [|injection E as <- _; exact Hc].
       destruct (aead_open _ hdr ct) as [p0|].
       + destruct (sw_check _ _); try discriminate; injection E as <- _; exact Hc.
-      + destruct (sw_check _ _); [|injection E as <- _; reflexivity..].
-        destruct (N.leb_spec integrity_limit (failures s + 1)); [lia|]. injection E as <- _; reflexivity.
+      + destruct (N.leb_spec integrity_limit (failures s + 1)); [lia|].
+        destruct (sw_check _ _); injection E as <- _; reflexivity.
   Qed.
 
   (* a replayed packet number has no effect either, authentic or not *)
@@ -193,27 +193,35 @@ Section Rx.
     - apply rx_processed in E. destruct E as (_ & _ & _ & Hd & _ & Ha & _). rewrite Hd, Ha, map_app, H. reflexivity.
     - destruct (rx_not_processed _ _ _ _ E) as (H1 & _ & H3 & _). rewrite H1, H3. exact H.
   Qed.
-  (* the connection is closed only when the failure counter has reached the integrity limit *)
-  Lemma closed_limit_step : forall s d, (closed s = true -> integrity_limit <= failures s) ->
-    closed (fst (rx s d)) = true -> integrity_limit <= failures (fst (rx s d)).
+  (* the connection is closed exactly when the failure counter has reached the integrity limit *)
+  Definition closed_iff (s : state) : Prop := closed s = true <-> integrity_limit <= failures s.
+
+  Lemma closed_iff_step : forall s d, closed_iff s -> closed_iff (fst (rx s d)).
   Proof.
-    intros s d H. unfold RxPipeline.rx. destruct (closed s) eqn:Ec; [cbn [fst]; auto|].
-    destruct (unprot d) as [[[[tpn n] hdr] ct]|]; [|cbn [fst]; rewrite Ec; discriminate].
+    intros s d H. unfold closed_iff in *. unfold RxPipeline.rx. destruct (closed s) eqn:Ec; [cbn [fst]; rewrite Ec; exact H|].
+    assert (Hlt : failures s < integrity_limit).
+    { destruct (N.lt_ge_cases (failures s) integrity_limit) as [|Hge]; [assumption|]. apply H in Hge. discriminate. }
+    destruct (unprot d) as [[[[tpn n] hdr] ct]|]; [|cbn [fst]; rewrite Ec; exact H].
     destruct (aead_open _ hdr ct) as [p0|].
-    - destruct (sw_check _ _); cbn [fst closed]; try (rewrite Ec); discriminate.
-    - destruct (sw_check _ _); [|cbn [fst bump closed]; discriminate..].
-      destruct (N.leb_spec integrity_limit (failures s + 1)); cbn [fst bump closed failures]; [auto|discriminate].
+    - destruct (sw_check _ _); cbn [fst closed failures]; try (rewrite Ec; exact H).
+      split; [discriminate|lia].
+    - destruct (N.leb_spec integrity_limit (failures s + 1)).
+      + cbn [fst bump closed failures]. split; [intros _; assumption|reflexivity].
+      + destruct (sw_check _ _); cbn [fst bump closed failures]; (split; [discriminate|lia]).
   Qed.
 
-  Theorem closed_only_at_limit : forall ds,
-    closed (rx_all init ds) = true -> integrity_limit <= failures (rx_all init ds).
+  Theorem closed_iff_limit : 0 < integrity_limit -> forall ds, closed_iff (rx_all init ds).
   Proof.
-    assert (G : forall ds s, (closed s = true -> integrity_limit <= failures s) ->
-                closed (rx_all s ds) = true -> integrity_limit <= failures (rx_all s ds)).
+    intros Hpos.
+    assert (G : forall ds s, closed_iff s -> closed_iff (rx_all s ds)).
     { induction ds as [|d t IH]; intros s H; cbn [RxPipeline.rx_all]; [exact H|].
-      apply IH. apply closed_limit_step. exact H. }
-    intros ds. apply G. cbn [init closed]. discriminate.
+      apply IH. apply closed_iff_step. exact H. }
+    intros ds. apply G. unfold closed_iff. cbn [init closed failures]. split; [discriminate|lia].
   Qed.
+
+  (* and nothing is processed or counted once it is closed *)
+  Lemma closed_is_final : forall s d, closed s = true -> rx s d = (s, (5%Z, None)).
+  Proof. intros s d H. unfold RxPipeline.rx. rewrite H. reflexivity. Qed.
 End Rx.
 
 (* ---- stateless reset ---- *)
@@ -365,17 +373,12 @@ Proof.
     + cbn [dump_forged app]. rewrite <- Hc. cbn [andb]. apply IH; auto.
     + destruct f as [pn|]; cbn [x_unprot].
       * unfold x_expand. assert (Ho : x_open tbl pn [] [] = None) by reflexivity. rewrite Ho.
-        destruct (sw_check (window s) pn) eqn:Ew.
-        -- destruct (N.leb_spec lim (failures s + 1)) as [Hl|Hl].
-           ++ cbn [dump_forged app]. rewrite <- Hc. cbn [negb andb].
-              replace (lim <=? nf + 1) with true by (symmetry; apply N.leb_le; lia). cbn [andb].
-              apply IH; cbn [bump window closed failures]; auto. lia.
-           ++ cbn [dump_forged app]. rewrite <- Hc. cbn [negb andb].
-              apply IH; cbn [bump window closed failures]; auto. lia.
+        destruct (N.leb_spec lim (failures s + 1)) as [Hl|Hl].
         -- cbn [dump_forged app]. rewrite <- Hc. cbn [negb andb].
+           replace (lim <=? nf + 1) with true by (symmetry; apply N.leb_le; lia). cbn [andb].
            apply IH; cbn [bump window closed failures]; auto. lia.
-        -- cbn [dump_forged app]. rewrite <- Hc. cbn [negb andb].
-           apply IH; cbn [bump window closed failures]; auto. lia.
+        -- destruct (sw_check (window s) pn) eqn:Ew; cbn [dump_forged app]; rewrite <- Hc; cbn [negb andb];
+             apply IH; cbn [bump window closed failures]; auto; lia.
       * cbn [dump_forged app]. rewrite <- Hc. cbn [negb andb]. apply IH; auto. lia.
 Qed.
 
